@@ -574,6 +574,19 @@ theorem content_agree_cases (o : HashOpts) (a b : ReqF) :
   · intro h1 h2 h3 h4
     simp [contentOf, h1, h2, h3, h4]
 
+/-- **requests that differ in a non-ignored form field never share a key** (so a recording is not served to them):
+    with payload parameters to ignore, the content not ignored and a non-empty multipart form on both sides, different
+    lists of non-ignored fields give different keys — whatever the other request parts and the ignored fields are. -/
+theorem differing_field_different_key (o : HashOpts) (a b : ReqF) (hc : o.ignoreContent = false)
+    (hp : o.ignorePayloadParams ≠ []) (ha : a.multipart ≠ []) (hb : b.multipart ≠ [])
+    (hd : a.multipart.filter (fun p => !o.ignorePayloadParams.contains p.1)
+          ≠ b.multipart.filter (fun p => !o.ignorePayloadParams.contains p.1)) :
+    keyOf o a ≠ keyOf o b := by
+  intro h
+  have hag := (agreeing_parts_same_key o a b).mpr h
+  have hcont := hag.2.2.2.2.2.2.1 hc
+  exact hd (((content_agree_cases o a b).2.1 hp ha hb).mp hcont)
+
 /-- **the property with the real key**: instantiate the replay model with `keyOf` (the transcription of `_hash`'s
     field selection).  After ANY history of loads / adds / clears / option changes / requests and for EVERY option
     combination, a request `q` is answered with recording `r` exactly when `r` is the first pending recording, in
